@@ -116,6 +116,10 @@ def gen(rng, tier):
         if not any(e.startswith("fd://") for e in lst):
             lst[rng.randrange(k)] = rng.choice(["fd://bound", "fd://unbound"])
         yield {"family": "bind-list", "kind": "bind-list", "binds": lst, "alias": rng.randint(2, 250)}
+    # alt-svc derived from the bound QUIC sockets: belongs to the configuration that asked for it, wherever that object travels
+    for i in range(6 if tier == "quick" else 40):
+        yield {"family": "alt-svc", "kind": "alt-svc", "order": rng.choice(["other_first", "other_after", "tls_noquic_after"]),
+               "nquic": rng.choice([1, 2]), "explicit": rng.random() < 0.25}
     for i in range(40 if tier == "quick" else 200):
         yield {"family": "headers", "kind": "headers", "date": rng.random() < 0.7, "server": rng.random() < 0.7,
                "alt": rng.choice([[], ['h3=":443"; ma=3600'], ['h3=":443"', 'h3-29=":443"']]), "proto": rng.choice(["h11", "h2", "h3"])}
@@ -295,6 +299,8 @@ def run_one(case, tally):
             findings += _check_bind(case, tmp, tally)
         elif kind == "bind-list":
             findings += _check_bind_list(case, tmp, tally)
+        elif kind == "alt-svc":
+            findings += _check_alt_svc(case, tally)
         elif kind == "headers":
             cfg = Config()
             cfg.include_date_header = case["date"]
@@ -451,6 +457,68 @@ def _check_bind(case, tmp, tally):
         for s in holder:
             try:
                 s.close()
+            except Exception:
+                pass
+    return out
+
+
+def _check_alt_svc(case, tally):
+    import pickle
+    import types
+
+    from hypercorn.config import Config
+
+    out = []
+    try:
+        from aioquic.h3.connection import H3_ALPN  # noqa: F401
+    except ImportError:  # only the constant is needed to render the header
+        conn = types.ModuleType("aioquic.h3.connection")
+        conn.H3_ALPN = ["h3"]
+        sys.modules.update({"aioquic": types.ModuleType("aioquic"), "aioquic.h3": types.ModuleType("aioquic.h3"), "aioquic.h3.connection": conn})
+
+    def alt(cfg):
+        return [v for n, v in cfg.response_headers("h2") if n == b"alt-svc"]
+
+    def mk(quic):
+        c = Config()
+        c.certfile, c.keyfile = "cert.pem", "key.pem"  # ssl_enabled only looks at whether they are set
+        c.bind = ["127.0.0.1:0"]
+        if quic:
+            c.quic_bind = ["127.0.0.1:0"] * quic
+        return c
+
+    socks = []
+    try:
+        other = Config() if case["order"] == "other_first" else None
+        a = mk(case["nquic"])
+        if case["explicit"]:
+            a.alt_svc_headers = ['h3=":8443"; ma=60']
+        sa = a.create_sockets()
+        socks += sa.secure_sockets + sa.insecure_sockets + sa.quic_sockets
+        ports = [q.getsockname()[1] for q in sa.quic_sockets]
+        want = [b'h3=":8443"; ma=60'] if case["explicit"] else [b'h3=":%d"; ma=3600' % p for p in ports]
+        if case["order"] == "other_after":
+            other = Config()
+        if case["order"] == "tls_noquic_after":
+            other = mk(0)
+            so = other.create_sockets()
+            socks += so.secure_sockets + so.insecure_sockets + so.quic_sockets
+        tally.clause("headers")
+        tally.clause("alt-svc")
+        if sorted(alt(a)) != sorted(want):
+            out.append({"clause": "headers", "sig": "C19.alt-svc/own-config", "detail": "config with quic sockets on ports %r advertises %r, expected %r (order %s)" % (ports, alt(a), want, case["order"])})
+        if alt(other):
+            out.append({"clause": "headers", "sig": "C19.alt-svc/leaked-to-other-config", "detail": "a configuration without QUIC binds advertises %r (order %s)" % (alt(other), case["order"])})
+        try:
+            b = pickle.loads(pickle.dumps(a))  # what a spawned worker process receives
+            if sorted(alt(b)) != sorted(want):
+                out.append({"clause": "headers", "sig": "C19.alt-svc/lost-in-worker-copy", "detail": "the pickled copy of the configuration advertises %r, expected %r" % (alt(b), want)})
+        except Exception as e:
+            tally.notes["config-not-picklable:%s" % type(e).__name__] += 1
+    finally:
+        for sck in socks:
+            try:
+                sck.close()
             except Exception:
                 pass
     return out
